@@ -23,6 +23,21 @@ def rw_paren(n, rng):
     return zast.replace_at(n, p, lambda x: ("paren", (), x))
 
 
+def rw_nop(n, rng):
+    """Insert one to three empty parenthesised expressions `()` into a concatenation (the empty expression yields its input)."""
+    ps = zast.paths(n, lambda x: x[0] == "cat")
+    if not ps:
+        return ("cat", [("paren", (), ("cat", []))] * rng.randint(1, 3) + [n])
+    p = rng.choice(ps)
+
+    def f(x):
+        ch = list(x[1])
+        for _ in range(rng.randint(1, 3)):
+            ch.insert(rng.randint(0, len(ch)), ("paren", (), ("cat", [])))
+        return ("cat", ch)
+    return zast.replace_at(n, p, f)
+
+
 def rw_qmark(n, rng):
     ps = zast.paths(n, lambda x: x[0] == "close" and x[1] == "?")
     if not ps:
@@ -79,7 +94,7 @@ def raw_variant(txt_node, rng):
     return None
 
 
-REWRITES = [("parentheses", rw_paren, True), ("E? vs (E,)", rw_qmark, False), ("if vs (?(C) A, !(C) B)", rw_if, False),
+REWRITES = [("parentheses", rw_paren, True), ("empty parentheses", rw_nop, True), ("E? vs (E,)", rw_qmark, False), ("if vs (?(C) A, !(C) B)", rw_if, False),
             ("?(E) vs ([E] != [])", rw_sub, False), ("infix vs let form", rw_infix, False), ("%x vs %( %)", rw_dir, True)]
 
 
